@@ -356,7 +356,7 @@ func (r *pieceReader) Read(p []byte) (int, error) {
 func c13MemfdHuge(c *vcore.Ctx) *vcore.Violation {
 	const prop = "C13"
 	size := int64(2<<30) + 12<<10 + 5
-	if c.Src.Bool(1, 3, "memfd_huge_4g") {
+	if c.Src.Bool(1, 3, "memfd_huge_4g") && c.Tier == "thorough" {
 		size = int64(4<<30) + 4097
 	}
 	c.Logf("memfd: a sparse regular file of %d bytes as an open file", size)
@@ -384,7 +384,20 @@ func c13MemfdHuge(c *vcore.Ctx) *vcore.Violation {
 	tf.Seek(0, io.SeekStart)
 	var f *os.File
 	var derr error
-	if !watchdog(120*time.Second, func() { f, derr = memfd.DupToMemfd("verifhuge", tf) }) {
+	// (gigabytes through a 32 KiB buffer take seconds, on a loaded machine many: the worker's stall watchdog is kept fed)
+	stop := make(chan struct{})
+	go func() {
+		for {
+			select {
+			case <-stop:
+				return
+			case <-time.After(5 * time.Second):
+				vcore.Heartbeat()
+			}
+		}
+	}()
+	defer close(stop)
+	if !watchdog(900*time.Second, func() { f, derr = memfd.DupToMemfd("verifhuge", tf) }) {
 		return vcore.Violate(prop, "hang", "memfd/huge", "DupToMemfd of a %d byte file did not return", size)
 	}
 	if derr != nil {
